@@ -39,6 +39,7 @@ func init() {
 	Z("KsMintDayGapSkipForkBatch", uint64(kernel.VerifC28MintDayGapSkipForkBatch), "kernel/hack.go")
 	Z("KsWithdrawalClaimFee", common.VerifIntegerBig(common.NewIntegerFromString(config.WithdrawalClaimFee)), "config/reader.go")
 	Z("KsInputIndexLimit", common.InputIndexLimit, f)
+	Z("KsReferencesCountLimit", common.ReferencesCountLimit, f)
 
 	a := "common/asset.go"
 	for _, e := range []struct {
